@@ -89,6 +89,18 @@ func Freeze() {
 	}
 }
 
+// closedErr returns ErrReactorShuttingDown or ErrReactorFrozen if the reactor is stopped or frozen
+func closedErr() error {
+	select {
+	case <-globalReactor.ctx.Done():
+		return ErrReactorShuttingDown
+	case <-globalReactor.freezeCtx.Done():
+		return ErrReactorFrozen
+	default:
+		return nil
+	}
+}
+
 // ReceiveFeedback sends an item to the feedback channel.
 // If the item is not present on the state table it gets discarded
 func ReceiveFeedback(item *models.Item) error {
@@ -99,6 +111,12 @@ func ReceiveFeedback(item *models.Item) error {
 	if !item.IsSeed() {
 		spew.Dump(item)
 		panic("item is not a seed")
+	}
+
+	// A stopped or frozen reactor accepts nothing: select picks randomly among ready cases,
+	// so these have to be tested before the input channel is offered
+	if err := closedErr(); err != nil {
+		return err
 	}
 
 	item.SetSource(models.ItemSourceFeedback)
@@ -123,6 +141,13 @@ func ReceiveFeedback(item *models.Item) error {
 func ReceiveInsert(item *models.Item) error {
 	if globalReactor == nil {
 		return ErrReactorNotInitialized
+	}
+
+	// A stopped or frozen reactor accepts nothing: select picks randomly among ready cases,
+	// so these have to be tested before a token is offered
+	if err := closedErr(); err != nil {
+		logger.Debug("received item on stopped or frozen reactor", "item", item.GetShortID())
+		return err
 	}
 
 	select {
